@@ -159,7 +159,26 @@ def observe(binary, home, behaviours, nmsgs, addrs):
     return recs
 
 
-def node_session(binary, home, addrs_unused=None, blocks_timeout=60):
+def norm(x):
+    """canonical form for comparing displayed objects with stored ones: default-valued fields dropped, numbers as strings"""
+    if isinstance(x, dict):
+        out = {}
+        for k, v in x.items():
+            v = norm(v)
+            if v in ("0", "", False, [], {}, None, "0.000000000000000000"):
+                continue
+            out[k] = v
+        return out
+    if isinstance(x, list):
+        return [norm(v) for v in x]
+    if isinstance(x, bool):
+        return x
+    if isinstance(x, (int, float)):
+        return str(x)
+    return x
+
+
+def node_session(binary, home, preload=None, blocks_timeout=60):
     """Single-node chain on local ports: create auctions through the CLI, then run every query command.
     Returns records of kind "tx" and "query" (exit status, what was displayed, what the specification expects)."""
     import socket
@@ -184,6 +203,17 @@ def node_session(binary, home, addrs_unused=None, blocks_timeout=60):
     code, out, err = cli("genesis", "collect-gentxs")
     gp = os.path.join(home, "config", "genesis.json")
     g = json.load(open(gp))
+    pre_bids, pre_vqs, pre_abs = [], [], []
+    if preload:
+        for addr, coins in preload["balances"].items():
+            if preload["names"].get(addr) == "pool":
+                continue
+            cli("genesis", "add-genesis-account", addr, coins)
+        g = json.load(open(gp))
+        g["app_state"]["fundraising"] = preload["fundraising"]
+        pre_bids = preload["fundraising"].get("bidList", [])
+        pre_vqs = preload["fundraising"].get("vestingQueueList", [])
+        pre_abs = preload["fundraising"].get("allowedBidderList", [])
     g["app_state"]["fundraising"]["params"]["auction_creation_fee"] = []
     json.dump(g, open(gp, "w"))
     cp = os.path.join(home, "config", "config.toml")
@@ -217,7 +247,8 @@ def node_session(binary, home, addrs_unused=None, blocks_timeout=60):
         txok = code == 0 and '"code":0' in out.replace(" ", "")
         recs.append({"kind": "tx", "cmd": argv[0], "exit": 0 if txok else 1, "argv": argv, "note": (err or out)[-300:] if not txok else ""})
         time.sleep(2.0)
-        expected_auction = {"id": "0", "auctioneer": alice, "start_price": "1.5", "selling_coin": "1000denoma", "paying_coin_denom": "denomb",
+        new_id = str(len(preload["fundraising"].get("auctionList", []))) if preload else "0"
+        expected_auction = {"id": new_id, "auctioneer": alice, "start_price": "1.5", "selling_coin": "1000denoma", "paying_coin_denom": "denomb",
                             "status": "AUCTION_STATUS_STANDBY", "remaining": "1000denoma", "start": iso(start), "end": iso(end), "release": iso(rel)}
 
         def show_auction(a):
@@ -230,13 +261,20 @@ def node_session(binary, home, addrs_unused=None, blocks_timeout=60):
                     "release": (b.get("vesting_schedules") or [{}])[0].get("release_time")}
         queries = [("params", [], lambda j: {"fee": j.get("params", {}).get("auction_creation_fee", []), "period": j.get("params", {}).get("extended_period")},
                     {"fee": [], "period": 1}),
-                   ("get-auction", ["0"], lambda j: show_auction(j.get("auction", {})), expected_auction),
-                   ("list-auction", [], lambda j: [show_auction(a) for a in j.get("auction", [])], [expected_auction]),
-                   ("list-allowed-bidder", [], lambda j: j.get("allowed_bidder", []), []),
-                   ("list-bid", [], lambda j: j.get("bid", []), []),
-                   ("list-vesting-queue", [], lambda j: j.get("vestingQueue", j.get("vesting_queue", [])), []),
+                   ("get-auction", [new_id], lambda j: show_auction(j.get("auction", {})), expected_auction),
+                   ("list-auction", ["--type", "AUCTION_TYPE_FIXED_PRICE", "--status", "AUCTION_STATUS_STANDBY"],
+                    lambda j: [show_auction(a) for a in j.get("auction", [])], [expected_auction]),
+                   ("list-allowed-bidder", [], lambda j: norm(j.get("allowed_bidder", [])), norm(pre_abs)),
+                   ("list-bid", [], lambda j: norm(j.get("bid", [])), norm(pre_bids)),
+                   ("list-vesting-queue", [], lambda j: norm(j.get("vestingQueue", j.get("vesting_queue", []))), norm(pre_vqs)),
+                   ] + ([("get-allowed-bidder", [pre_abs[0].get("auction_id", "0"), pre_abs[0]["bidder"]], lambda j: norm(j.get("allowed_bidder", {})), norm(pre_abs[0])),
+                         ("list-allowed-bidder", ["--auction-id", "1"], lambda j: norm(j.get("allowed_bidder", [])), norm([x for x in pre_abs if x.get("auction_id") == "1"])),
+                         ("get-bid", [pre_bids[-1].get("auction_id", "0"), pre_bids[-1]["id"]], lambda j: norm(j.get("bid", {})), norm(pre_bids[-1])),
+                         ("list-bid", ["--auction-id", "1", "--is-matched", "false"], lambda j: norm(j.get("bid", [])),
+                          norm([x for x in pre_bids if x.get("auction_id") == "1" and not x.get("is_matched")])),
+                         ] if preload and pre_abs and pre_bids else []) + [
                    ("get-auction", ["7"], None, "not found"),
-                   ("get-bid", ["0", "1"], None, "not found"),
+                   ("get-bid", ["0", "77"], None, "not found"),
                    ("get-allowed-bidder", ["0", alice], None, "not found")]
         for cmd, args, view, exp in queries:
             code, out, err = cli("query", "fundraising", cmd, *args, "--node", node, "-o", "json")
